@@ -21,6 +21,8 @@ ASSUMPTIONS = [
 
 TEMPO = ((0, 120000), (10, 90000), (20, 150000), (30, 60000), (40, 200000), (50, 1000))
 TEMPO_DENSE = ((0, 120000), (1, 90000), (2, 150000), (3, 60000), (4, 200000))
+# markers that merely restate the tempo in force (Moonscraper writes one next to every anchor)
+TEMPO_RESTATE = ((0, 120000), (10, 120000), (20, 90000), (30, 90000), (40, 90000), (50, 150000))
 KINDS = ("TS", "text", "section", "lyric", "S", "E", "N", "Nend")
 LONG = (9, 10, 16, 17, 18, 33, 40, 65)  # tempo-map lengths around plausible fast-path thresholds
 
@@ -67,6 +69,7 @@ def plan(tier, seed):
     if tier == "thorough":
         shards += [("corrupt", -k) for k in range(2, 6)] + [("zero", -k, j) for k in range(2, 6) for j in range(k)]
     shards += [("long", n) for n in LONG]
+    shards += [("corrupt", 100 + k) for k in range(2, 7)] + [("zero", 100 + k, j) for k in range(2, 7) for j in range(k)]
     return dict(shards=shards, bounds=dict(tempo_events="1..%d%s" % (kmax, "" if tier == "quick" else " (gaps 10) and 2..5 (gaps 1)"), event_kinds=list(KINDS), placements="tick-1, tick, tick+1 of each tempo event"), budget_s=300)
 
 
@@ -116,8 +119,8 @@ def run_shard(shard, ctx):
     kind = shard[0]
     if kind == "corrupt":
         k = shard[1]
-        b = list(TEMPO[:k]) if k > 0 else list(TEMPO_DENSE[:-k])
-        k = abs(k)
+        b = list(TEMPO_RESTATE[: k - 100]) if k > 100 else (list(TEMPO[:k]) if k > 0 else list(TEMPO_DENSE[:-k]))
+        k = len(b)
         ctx.node()
         placements = [((), (), ())]
         for kd in KINDS:
@@ -145,9 +148,12 @@ def run_shard(shard, ctx):
                 back = list(b)
                 back[j + 1] = (b[j][0] - 1 if b[j][0] > 0 else 0, b[j + 1][1])
                 expect(ctx, chart(back, extra=extra), "tempo event %d moved before its predecessor" % (j + 1))
+                same = list(b)  # the duplicated tick also REPEATS the tempo value
+                same[j + 1] = (b[j][0], b[j][1])
+                expect(ctx, chart(same, extra=extra), "tempo line %d written twice" % j)
     elif kind == "zero":
         _, k, j = shard
-        b = list(TEMPO[:k]) if k > 0 else list(TEMPO_DENSE[:-k])
+        b = list(TEMPO_RESTATE[: k - 100]) if k > 100 else (list(TEMPO[:k]) if k > 0 else list(TEMPO_DENSE[:-k]))
         z = list(b)
         z[j] = (b[j][0], 0)
         ctx.node()
